@@ -421,7 +421,7 @@ func TestC09(t *testing.T) {
 				servedBefore = up.Served.Load()
 			}
 			regBefore := n0.Srv.ClusterState().LocalEndpointListeners("e1")
-			res := Do(req)
+			res := DoWith(KeepAliveClient, req)
 			c.Stepf("%s %s form=%s token=%+v valid=%v -> %d", r.method, r.path, form, sp, valid, res.Status)
 			if res.Err != nil {
 				c.Fatalf("C09: %s %s on the %s port: no answer: %v", r.method, r.path, port, res.Err)
